@@ -11,10 +11,10 @@ open Gojq Gojq.VM
 /-- instructions that may be (re-)entered in backtrack mode -/
 def bOK : Shape → Bool
   | .fork _ | .forkalt _ | .forktrybegin _ | .iter | .forklabel _ _ | .forktryend | .object _ | .backtrack
-  | .index | .indexarray | .call _ | .callNative _ _ | .ret | .pathend => true
+  | .index _ | .indexarray _ | .call _ | .callNative _ _ | .ret | .pathend => true
   | _ => false
 
-theorem BConf.code {S : SC} {fne : Prop} {pc err stk fr} (h : BConf S fne pc err stk fr) {i : Shape}
+theorem BConf.code {S : SC} {fne : Prop} {pc err stk pa fr} (h : BConf S fne pc err stk pa fr) {i : Shape}
     (hc : codeAt S pc = some i) : bOK i = true := by
   unfold BConf at h
   rw [hc] at h
@@ -23,22 +23,22 @@ theorem BConf.code {S : SC} {fne : Prop} {pc err stk fr} (h : BConf S fne pc err
 /-- an instruction that is never entered in backtrack mode runs in normal mode -/
 theorem Inv.elimN {S : SC} {l : L} {e : Env} (hI : Inv S l e) {i : Shape} (hc : codeAt S l.pc = some i)
     (hb : bOK i = false) :
-    l.backtrack = false ∧ ∃ A, View e A ∧ GInv S e ∧ ForksConf S A.forks ∧ NMode S l e A := by
-  obtain ⟨A, hV, G, hF, hM⟩ := hI
+    l.backtrack = false ∧ ∃ A, View e A ∧ GInv S e ∧ ForksConf S A.forks ∧ PathsInv A ∧ NMode S l e A := by
+  obtain ⟨A, hV, G, hF, hP, hM⟩ := hI
   by_cases hbt : l.backtrack = true
   · rw [if_pos hbt] at hM
     rcases hM.2 with h | h
     · have := codeAt_range hc; omega
     · have := h.code hc; rw [hb] at this; cases this
   · rw [if_neg hbt] at hM
-    exact ⟨by simpa using hbt, A, hV, G, hF, hM⟩
+    exact ⟨by simpa using hbt, A, hV, G, hF, hP, hM⟩
 
 theorem NMode.unpack {S : SC} (C : Checked S) {l : L} {e : Env} {A : AView} (hN : NMode S l e A) {i : Shape}
     (hc : codeAt S l.pc = some i) :
     l.err = none ∧ ∃ a succs, annAt S l.pc = some a ∧ step1 S.code S.tab S.nvars l.pc.toNat a i = some succs ∧
       (∀ s ∈ succs, SuccOK S s) ∧ ((l.pc.toNat : Nat) : Int) = l.pc ∧ (a.pend = true → A.forks ≠ []) ∧
       (if isScope i = true then EntryConf S (A.forks ≠ []) l a A ∧ l.index < e.scopes.data.size
-       else HConf S (A.forks ≠ []) a.h A.stk A.frames) := by
+       else HConf S (A.forks ≠ []) a A.stk A.paths A.frames) := by
   obtain ⟨herr, a, i', ha, hc', hp, hconf⟩ := hN
   rw [hc] at hc'
   simp only [Option.some.injEq] at hc'
@@ -46,24 +46,26 @@ theorem NMode.unpack {S : SC} (C : Checked S) {l : L} {e : Env} {A : AView} (hN 
   obtain ⟨_, succs, hst, hs, hpc⟩ := C.step l.pc a i ha hc
   exact ⟨herr, a, succs, ha, hst, hs, hpc, hp, hconf⟩
 
-theorem HConf.resize {S : SC} {p : Prop} {h h' : Nat} {stk stk' : List (Int × V)} {fr}
-    (c : HConf S p h stk fr) (hl : stk.length + h' ≤ stk'.length + h) : HConf S p h' stk' fr :=
-  ⟨c.1, c.2.1, by have := c.2.2; omega⟩
+theorem HConf.resize {S : SC} {p : Prop} {a a' : Abs} {stk stk' : List (Int × V)} {pa fr}
+    (c : HConf S p a stk pa fr) (hl : stk.length + a'.h ≤ stk'.length + a.h)
+    (hd : a'.pd ≤ a.pd := by exact Nat.le_refl _) : HConf S p a' stk' pa fr :=
+  ⟨c.ne, c.fr, by have := c.len; omega, by have := c.plen; omega⟩
 
-theorem HConf.cons_of_pos {S : SC} {p : Prop} {h : Nat} {stk : List (Int × V)} {fr}
-    (c : HConf S p h stk fr) (hh : 1 ≤ h) : ∃ i v r, stk = (i, v) :: r := by
+theorem HConf.cons_of_pos {S : SC} {p : Prop} {a : Abs} {stk : List (Int × V)} {pa fr}
+    (c : HConf S p a stk pa fr) (hh : 1 ≤ a.h) : ∃ i v r, stk = (i, v) :: r := by
   cases stk with
-  | nil => have := c.2.2; simp at this; omega
+  | nil => have := c.len; simp at this; omega
   | cons q r => exact ⟨q.1, q.2, r, rfl⟩
 
 /-- `Post` for an instruction that falls through with the forks unchanged -/
 theorem Post.fall {S : SC} {l : L} {e' : Env} {A' : AView} (hV : View e' A') (G : GInv S e')
-    (hF : ForksConf S A'.forks) (hb : l.backtrack = false) (hN : NMode S { l with pc := l.pc + 1 } e' A') :
-    Post S (.fall, l) e' := ⟨A', hV, G, hF, hb, hN⟩
+    (hF : ForksConf S A'.forks) (hP : PathsInv A') (hb : l.backtrack = false)
+    (hN : NMode S { l with pc := l.pc + 1 } e' A') :
+    Post S (.fall, l) e' := ⟨A', hV, G, hF, hP, hb, hN⟩
 
 theorem Post.jump {S : SC} {l : L} {e' : Env} {A' : AView} (hV : View e' A') (G : GInv S e')
-    (hF : ForksConf S A'.forks) (hb : l.backtrack = false) (hN : NMode S l e' A') :
-    Post S (.jump, l) e' := ⟨A', hV, G, hF, hb, hN⟩
+    (hF : ForksConf S A'.forks) (hP : PathsInv A') (hb : l.backtrack = false) (hN : NMode S l e' A') :
+    Post S (.jump, l) e' := ⟨A', hV, G, hF, hP, hb, hN⟩
 
 theorem succ1 {α : Type} {P : α → Prop} {s1 : α} (h : ∀ s ∈ [s1], P s) : P s1 := h s1 (by simp)
 theorem succ2 {α : Type} {P : α → Prop} {s1 s2 : α} (h : ∀ s ∈ [s1, s2], P s) : P s1 ∧ P s2 :=
@@ -71,12 +73,12 @@ theorem succ2 {α : Type} {P : α → Prop} {s1 s2 : α} (h : ∀ s ∈ [s1, s2]
 
 theorem NMode.fall {S : SC} {a' : Abs} {l : L} {e : Env} {A : AView} (hs : SuccOK S (l.pc + 1, a'))
     (herr : l.err = none) (hp : a'.pend = true → A.forks ≠ [])
-    (hc : HConf S (A.forks ≠ []) a'.h A.stk A.frames) : NMode S { l with pc := l.pc + 1 } e A :=
+    (hc : HConf S (A.forks ≠ []) a' A.stk A.paths A.frames) : NMode S { l with pc := l.pc + 1 } e A :=
   NMode.of_succ hs herr rfl hp hc
 
 theorem exec_nop {S : SC} (C : Checked S) {x : ExtRec} {l : L} {e : Env}
     (hc : codeAt S l.pc = some .nop) (hI : Inv S l e) : WP (exec .nop x l) (Post S) e := by
-  obtain ⟨hb, A, hV, G, hF, hN⟩ := hI.elimN hc rfl
+  obtain ⟨hb, A, hV, G, hF, hP, hN⟩ := hI.elimN hc rfl
   obtain ⟨herr, a, succs, ha, hst, hsucc, hpc, hp, hconf⟩ := hN.unpack C hc
   simp only [step1, Option.some.injEq] at hst
   subst hst
@@ -84,11 +86,11 @@ theorem exec_nop {S : SC} (C : Checked S) {x : ExtRec} {l : L} {e : Env}
   rw [if_neg (by simp [isScope])] at hconf
   simp only [exec]
   apply WP.pure
-  exact Post.fall hV G hF hb (NMode.fall (succ1 hsucc) herr hp hconf)
+  exact Post.fall hV G hF hP hb (NMode.fall (succ1 hsucc) herr hp hconf)
 
 theorem exec_push {S : SC} (C : Checked S) {v : JV} {x : ExtRec} {l : L} {e : Env}
     (hc : codeAt S l.pc = some .push) (hI : Inv S l e) : WP (exec (.push v) x l) (Post S) e := by
-  obtain ⟨hb, A, hV, G, hF, hN⟩ := hI.elimN hc rfl
+  obtain ⟨hb, A, hV, G, hF, hP, hN⟩ := hI.elimN hc rfl
   obtain ⟨herr, a, succs, ha, hst, hsucc, hpc, hp, hconf⟩ := hN.unpack C hc
   simp only [step1, Option.some.injEq] at hst
   subst hst
@@ -97,12 +99,12 @@ theorem exec_push {S : SC} (C : Checked S) {v : JV} {x : ExtRec} {l : L} {e : En
   simp only [exec]
   apply WP.step (push_eq _ _)
   apply WP.pure
-  exact Post.fall (hV.push _) (G.push rfl) hF hb
+  exact Post.fall (hV.push _) (G.push rfl) hF hP hb
     (NMode.fall (succ1 hsucc) herr hp (hconf.resize (by simp; omega)))
 
 theorem exec_pop {S : SC} (C : Checked S) {x : ExtRec} {l : L} {e : Env}
     (hc : codeAt S l.pc = some .pop) (hI : Inv S l e) : WP (exec .pop x l) (Post S) e := by
-  obtain ⟨hb, A, hV, G, hF, hN⟩ := hI.elimN hc rfl
+  obtain ⟨hb, A, hV, G, hF, hP, hN⟩ := hI.elimN hc rfl
   obtain ⟨herr, a, succs, ha, hst, hsucc, hpc, hp, hconf⟩ := hN.unpack C hc
   simp only [step1] at hst
   split at hst
@@ -116,7 +118,7 @@ theorem exec_pop {S : SC} (C : Checked S) {x : ExtRec} {l : L} {e : Env}
     simp only [exec]
     apply WP.step hpop
     apply WP.pure
-    exact Post.fall hV1 G1 hF hb
+    exact Post.fall hV1 G1 hF hP hb
       (NMode.fall (succ1 hsucc) herr hp (hconf.resize (by simp [hstk]; omega)))
   · simp at hst
 
@@ -140,7 +142,7 @@ theorem WP.envIndex {S : SC} {β : Type} {e : Env} {A : AView} (hV : View e A) (
 
 theorem exec_dup {S : SC} (C : Checked S) {x : ExtRec} {l : L} {e : Env}
     (hc : codeAt S l.pc = some .dup) (hI : Inv S l e) : WP (exec .dup x l) (Post S) e := by
-  obtain ⟨hb, A, hV, G, hF, hN⟩ := hI.elimN hc rfl
+  obtain ⟨hb, A, hV, G, hF, hP, hN⟩ := hI.elimN hc rfl
   obtain ⟨herr, a, succs, ha, hst, hsucc, hpc, hp, hconf⟩ := hN.unpack C hc
   simp only [step1] at hst
   split at hst
@@ -156,13 +158,13 @@ theorem exec_dup {S : SC} (C : Checked S) {x : ExtRec} {l : L} {e : Env}
     apply WP.step (push_eq _ _)
     apply WP.step (push_eq _ _)
     apply WP.pure
-    exact Post.fall ((hV1.push v).push v) ((G1.push hv).push hv) hF hb
+    exact Post.fall ((hV1.push v).push v) ((G1.push hv).push hv) hF hP hb
       (NMode.fall (succ1 hsucc) herr hp (hconf.resize (by simp [hstk]; omega)))
   · simp at hst
 
 theorem exec_const {S : SC} (C : Checked S) {w : JV} {x : ExtRec} {l : L} {e : Env}
     (hc : codeAt S l.pc = some .const) (hI : Inv S l e) : WP (exec (.const w) x l) (Post S) e := by
-  obtain ⟨hb, A, hV, G, hF, hN⟩ := hI.elimN hc rfl
+  obtain ⟨hb, A, hV, G, hF, hP, hN⟩ := hI.elimN hc rfl
   obtain ⟨herr, a, succs, ha, hst, hsucc, hpc, hp, hconf⟩ := hN.unpack C hc
   simp only [step1] at hst
   split at hst
@@ -177,13 +179,13 @@ theorem exec_const {S : SC} (C : Checked S) {w : JV} {x : ExtRec} {l : L} {e : E
     apply WP.step hpop
     apply WP.step (push_eq _ _)
     apply WP.pure
-    exact Post.fall (hV1.push _) (G1.push rfl) hF hb
+    exact Post.fall (hV1.push _) (G1.push rfl) hF hP hb
       (NMode.fall (succ1 hsucc) herr hp (hconf.resize (by simp [hstk])))
   · simp at hst
 
 theorem exec_load {S : SC} (C : Checked S) {id i : Int} {x : ExtRec} {l : L} {e : Env}
     (hc : codeAt S l.pc = some (.load id i)) (hI : Inv S l e) : WP (exec (.load id i) x l) (Post S) e := by
-  obtain ⟨hb, A, hV, G, hF, hN⟩ := hI.elimN hc rfl
+  obtain ⟨hb, A, hV, G, hF, hP, hN⟩ := hI.elimN hc rfl
   obtain ⟨herr, a, succs, ha, hst, hsucc, hpc, hp, hconf⟩ := hN.unpack C hc
   simp only [step1] at hst
   split at hst
@@ -199,13 +201,13 @@ theorem exec_load {S : SC} (C : Checked S) {id i : Int} {x : ExtRec} {l : L} {e 
     apply WP.step hget
     apply WP.step (push_eq _ _)
     apply WP.pure
-    exact Post.fall (hV.push _) (G.push hv) hF hb
+    exact Post.fall (hV.push _) (G.push hv) hF hP hb
       (NMode.fall (succ1 hsucc) herr hp (hconf.resize (by simp; omega)))
   · simp at hst
 
 theorem exec_store {S : SC} (C : Checked S) {id i : Int} {x : ExtRec} {l : L} {e : Env}
     (hc : codeAt S l.pc = some (.store id i)) (hI : Inv S l e) : WP (exec (.store id i) x l) (Post S) e := by
-  obtain ⟨hb, A, hV, G, hF, hN⟩ := hI.elimN hc rfl
+  obtain ⟨hb, A, hV, G, hF, hP, hN⟩ := hI.elimN hc rfl
   obtain ⟨herr, a, succs, ha, hst, hsucc, hpc, hp, hconf⟩ := hN.unpack C hc
   simp only [step1] at hst
   split at hst
@@ -224,13 +226,13 @@ theorem exec_store {S : SC} (C : Checked S) {id i : Int} {x : ExtRec} {l : L} {e
     obtain ⟨hset, hV2, G2⟩ := setValue_spec hV1 G1 (k := k) h0 h1 hv
     apply WP.step hset
     apply WP.pure
-    exact Post.fall hV2 G2 hF hb
+    exact Post.fall hV2 G2 hF hP hb
       (NMode.fall (succ1 hsucc) herr hp (hconf.resize (by simp [hstk]; omega)))
   · simp at hst
 
 theorem exec_append {S : SC} (C : Checked S) {id i : Int} {x : ExtRec} {l : L} {e : Env}
     (hc : codeAt S l.pc = some (.append id i)) (hI : Inv S l e) : WP (exec (.append id i) x l) (Post S) e := by
-  obtain ⟨hb, A, hV, G, hF, hN⟩ := hI.elimN hc rfl
+  obtain ⟨hb, A, hV, G, hF, hP, hN⟩ := hI.elimN hc rfl
   obtain ⟨herr, a, succs, ha, hst, hsucc, hpc, hp, hconf⟩ := hN.unpack C hc
   simp only [step1] at hst
   split at hst
@@ -256,7 +258,7 @@ theorem exec_append {S : SC} (C : Checked S) {id i : Int} {x : ExtRec} {l : L} {
         obtain ⟨hset, hV2, G2⟩ := setValue_spec hV1 G1 (k := k) (v := .jv (.arr (_ ++ [jv]))) h0 h1 rfl
         apply WP.step hset
         apply WP.pure
-        exact Post.fall hV2 G2 hF hb
+        exact Post.fall hV2 G2 hF hP hb
           (NMode.fall (succ1 hsucc) herr hp (hconf.resize (by simp [hstk]; omega)))
       | _ => simp only [asJV]; apply WP.bind; exact WP.stuck
     · exact WP.panic rfl
@@ -264,18 +266,18 @@ theorem exec_append {S : SC} (C : Checked S) {id i : Int} {x : ExtRec} {l : L} {
 
 theorem exec_jump {S : SC} (C : Checked S) {t : Int} {x : ExtRec} {l : L} {e : Env}
     (hc : codeAt S l.pc = some (.jump t)) (hI : Inv S l e) : WP (exec (.jump t) x l) (Post S) e := by
-  obtain ⟨hb, A, hV, G, hF, hN⟩ := hI.elimN hc rfl
+  obtain ⟨hb, A, hV, G, hF, hP, hN⟩ := hI.elimN hc rfl
   obtain ⟨herr, a, succs, ha, hst, hsucc, hpc, hp, hconf⟩ := hN.unpack C hc
   simp only [step1, Option.some.injEq] at hst
   subst hst
   rw [if_neg (by simp [isScope])] at hconf
   simp only [exec]
   apply WP.pure
-  exact Post.jump hV G hF hb (NMode.of_succ (succ1 hsucc) herr rfl hp hconf)
+  exact Post.jump hV G hF hP hb (NMode.of_succ (succ1 hsucc) herr rfl hp hconf)
 
 theorem exec_jumpifnot {S : SC} (C : Checked S) {t : Int} {x : ExtRec} {l : L} {e : Env}
     (hc : codeAt S l.pc = some (.jumpifnot t)) (hI : Inv S l e) : WP (exec (.jumpifnot t) x l) (Post S) e := by
-  obtain ⟨hb, A, hV, G, hF, hN⟩ := hI.elimN hc rfl
+  obtain ⟨hb, A, hV, G, hF, hP, hN⟩ := hI.elimN hc rfl
   obtain ⟨herr, a, succs, ha, hst, hsucc, hpc, hp, hconf⟩ := hN.unpack C hc
   simp only [step1] at hst
   split at hst
@@ -287,21 +289,21 @@ theorem exec_jumpifnot {S : SC} (C : Checked S) {t : Int} {x : ExtRec} {l : L} {
     obtain ⟨i, v, r, hstk⟩ := hconf.cons_of_pos hh
     obtain ⟨nx, hpop, hV1, G1, hv⟩ := pop_spec hV G hstk
     obtain ⟨hs1, hs2⟩ := succ2 hsucc
-    have hc' := hconf.resize (h' := a.h - 1) (stk' := r) (by simp [hstk]; omega)
+    have hc' := hconf.resize (a' := { a with h := a.h - 1 }) (stk' := r) (by simp [hstk]; omega)
     simp only [exec]
     apply WP.step hpop
     split
     · apply WP.pure
-      exact Post.jump hV1 G1 hF hb (NMode.of_succ hs2 herr rfl hp hc')
+      exact Post.jump hV1 G1 hF hP hb (NMode.of_succ hs2 herr rfl hp hc')
     · apply WP.pure
-      exact Post.jump hV1 G1 hF hb (NMode.of_succ hs2 herr rfl hp hc')
+      exact Post.jump hV1 G1 hF hP hb (NMode.of_succ hs2 herr rfl hp hc')
     · apply WP.pure
-      exact Post.fall hV1 G1 hF hb (NMode.fall hs1 herr hp hc')
+      exact Post.fall hV1 G1 hF hP hb (NMode.fall hs1 herr hp hc')
   · simp at hst
 
 theorem exec_expbegin {S : SC} (C : Checked S) {x : ExtRec} {l : L} {e : Env}
     (hc : codeAt S l.pc = some .expbegin) (hI : Inv S l e) : WP (exec .expbegin x l) (Post S) e := by
-  obtain ⟨hb, A, hV, G, hF, hN⟩ := hI.elimN hc rfl
+  obtain ⟨hb, A, hV, G, hF, hP, hN⟩ := hI.elimN hc rfl
   obtain ⟨herr, a, succs, ha, hst, hsucc, hpc, hp, hconf⟩ := hN.unpack C hc
   simp only [step1, Option.some.injEq] at hst
   subst hst
@@ -310,12 +312,12 @@ theorem exec_expbegin {S : SC} (C : Checked S) {x : ExtRec} {l : L} {e : Env}
   simp only [exec]
   apply WP.step (modifyEnv_eq _ _)
   apply WP.pure
-  exact Post.fall (hV.fr ⟨rfl, rfl, rfl, rfl, rfl⟩) (G.fr ⟨rfl, rfl, rfl, rfl, rfl⟩) hF hb
+  exact Post.fall (hV.fr ⟨rfl, rfl, rfl, rfl, rfl⟩) (G.fr ⟨rfl, rfl, rfl, rfl, rfl⟩) hF hP hb
     (NMode.fall (succ1 hsucc) herr hp hconf)
 
 theorem exec_expend {S : SC} (C : Checked S) {x : ExtRec} {l : L} {e : Env}
     (hc : codeAt S l.pc = some .expend) (hI : Inv S l e) : WP (exec .expend x l) (Post S) e := by
-  obtain ⟨hb, A, hV, G, hF, hN⟩ := hI.elimN hc rfl
+  obtain ⟨hb, A, hV, G, hF, hP, hN⟩ := hI.elimN hc rfl
   obtain ⟨herr, a, succs, ha, hst, hsucc, hpc, hp, hconf⟩ := hN.unpack C hc
   simp only [step1, Option.some.injEq] at hst
   subst hst
@@ -324,12 +326,12 @@ theorem exec_expend {S : SC} (C : Checked S) {x : ExtRec} {l : L} {e : Env}
   simp only [exec]
   apply WP.step (modifyEnv_eq _ _)
   apply WP.pure
-  exact Post.fall (hV.fr ⟨rfl, rfl, rfl, rfl, rfl⟩) (G.fr ⟨rfl, rfl, rfl, rfl, rfl⟩) hF hb
+  exact Post.fall (hV.fr ⟨rfl, rfl, rfl, rfl, rfl⟩) (G.fr ⟨rfl, rfl, rfl, rfl, rfl⟩) hF hP hb
     (NMode.fall (succ1 hsucc) herr hp hconf)
 
 theorem exec_pathbegin {S : SC} (C : Checked S) {x : ExtRec} {l : L} {e : Env}
     (hc : codeAt S l.pc = some .pathbegin) (hI : Inv S l e) : WP (exec .pathbegin x l) (Post S) e := by
-  obtain ⟨hb, A, hV, G, hF, hN⟩ := hI.elimN hc rfl
+  obtain ⟨hb, A, hV, G, hF, hP, hN⟩ := hI.elimN hc rfl
   obtain ⟨herr, a, succs, ha, hst, hsucc, hpc, hp, hconf⟩ := hN.unpack C hc
   simp only [step1] at hst
   split at hst
@@ -342,15 +344,19 @@ theorem exec_pathbegin {S : SC} (C : Checked S) {x : ExtRec} {l : L} {e : Env}
     simp only [exec]
     apply WP.step (getEnv_eq _)
     apply WP.step (pathsPush_eq _ _)
-    have hV1 : View { e with paths := e.paths.push (.jv (.num (.int e.expdepth))) } A := hV.fr ⟨rfl, rfl, rfl, rfl, rfl⟩
+    have hV1 := pathsPush_view hV (.jv (.num (.int e.expdepth)))
     have G1 : GInv S { e with paths := e.paths.push (.jv (.num (.int e.expdepth))) } := G.fr ⟨rfl, rfl, rfl, rfl, rfl⟩
     obtain ⟨htop, _⟩ := stackTop_spec hV1 G1 hstk
     apply WP.step htop
     apply WP.step (pathsPush_eq _ _)
+    have hV2 := pathsPush_view hV1 (.pv (.jv .null) v)
     apply WP.step (modifyEnv_eq _ _)
     apply WP.pure
-    exact Post.fall (hV1.fr ⟨rfl, rfl, rfl, rfl, rfl⟩) (G1.fr ⟨rfl, rfl, rfl, rfl, rfl⟩) hF hb
-      (NMode.fall (succ1 hsucc) herr hp hconf)
+    refine Post.fall (hV2.fr ⟨rfl, rfl, rfl, rfl, rfl⟩) (G1.fr ⟨rfl, rfl, rfl, rfl, rfl⟩) hF ⟨POK.seg hP.1, hP.2⟩ hb
+      (NMode.fall (succ1 hsucc) herr hp ⟨hconf.ne, hconf.fr, hconf.len, ?_⟩)
+    have := hconf.plen
+    simp only [segs_seg]
+    omega
   · simp at hst
 
 theorem entryHI_target {S : SC} {t : Int} (h : entryHI S.code S.nvars t = some 1) : S.target t = true := by
@@ -358,7 +364,7 @@ theorem entryHI_target {S : SC} {t : Int} (h : entryHI S.code S.nvars t = some 1
 
 theorem exec_pushpc {S : SC} (C : Checked S) {t : Int} {x : ExtRec} {l : L} {e : Env}
     (hc : codeAt S l.pc = some (.pushpc t)) (hI : Inv S l e) : WP (exec (.pushpc t) x l) (Post S) e := by
-  obtain ⟨hb, A, hV, G, hF, hN⟩ := hI.elimN hc rfl
+  obtain ⟨hb, A, hV, G, hF, hP, hN⟩ := hI.elimN hc rfl
   obtain ⟨herr, a, succs, ha, hst, hsucc, hpc, hp, hconf⟩ := hN.unpack C hc
   simp only [step1] at hst
   split at hst
@@ -377,7 +383,7 @@ theorem exec_pushpc {S : SC} (C : Checked S) {t : Int} {x : ExtRec} {l : L} {e :
       have hv : VOK S e (.clo t e.scopes.index) := by
         simp only [VOK, vok, Bool.and_eq_true, decide_eq_true_eq]
         exact ⟨entryHI_target hk, hV.scopes.chain.index_lt⟩
-      exact Post.fall (hV.push _) (G.push hv) hF hb
+      exact Post.fall (hV.push _) (G.push hv) hF hP hb
         (NMode.fall (succ1 hsucc) herr hp (hconf.resize (by simp; omega)))
     · simp at hst
   · simp at hst
